@@ -41,6 +41,7 @@ func init() {
 			ruleLineFilterBuilder(r)
 			ruleErrorPathKeepsLine(r, []string{"UnpackExtractor", "LineFormat"}) // "unless a formatting stage rewrote it, its original line": a stage that fails leaves the line alone
 			ruleDistinct(r)
+			ruleIndexLoopDeletion(r, []string{metricPkg, enginePkg, dockerlogPkg})
 		},
 	})
 }
